@@ -60,4 +60,12 @@ example : Json.inRangeObj [(key! "track", jrat 360 1)] = false := by decide
 example : Json.inRangeObj [(key! "bds30", .obj [(key! "threat_bearing", jnat 363)])] = false := by decide
 example : Json.inRangeObj [(key! "track", jrat 3599 10)] = true := by decide
 
+/-- **No hidden state besides the reviewed one** in the decoder's files (`Props.C01.hidden_state_reviewed`, restated
+    here because `accepted_in_range` is about the decoder as a function of the frame: a per-thread memo of decoded
+    quantities could hand one frame the values of another). -/
+theorem hidden_state_reviewed :
+    Gen.HiddenState.sitesIn Rs1090.Props.C01.decoderFiles =
+      [("decode/mod.rs", "static CONFIG: OnceCell<SerializeConfig> = OnceCell::new();")] :=
+  Rs1090.Props.C01.hidden_state_reviewed
+
 end Rs1090.Props.C08
